@@ -189,8 +189,12 @@ def check_case(case, res, prior=None):
                         eeprom_8byte=case["eight"])
     naccess = [0]
 
+    beyond = [0]
+    limit = (max(len(img), len(image(prior)) if prior else 0) + 4096) // 2
+
     def busy_for():
         naccess[0] += 1
+        beyond[0] = max(beyond[0], t.ee_addr)
         lb = case.get("long_busy")
         if lb and naccess[0] - 1 == lb[0]:
             return lb[1]
@@ -253,7 +257,11 @@ def check_case(case, res, prior=None):
             # gather): a second terminal with the other image on the bus
             t2 = bus.SimTerminal("T2", eeprom=image(prior), station=34,
                                  eeprom_8byte=not case["eight"])
-            t2.ee_busy_for = lambda: 1
+
+            def busy2():
+                beyond[0] = max(beyond[0], t2.ee_addr)
+                return 1
+            t2.ee_busy_for = busy2
             b.terminals.append(t2)
             term2 = Terminal(ec)
             term2.position = 34
@@ -279,10 +287,25 @@ def check_case(case, res, prior=None):
             except Exception as ex:
                 got["pdo_error"] = repr(ex)
         return got
+    def walked_off():
+        # the walk left the image (and 4 KiB of 0xff behind it): the end
+        # marker was missed; the run is ended here instead of following the
+        # reader through the rest of the 32-bit address space
+        if beyond[0] > limit:
+            return (f"the reader asked for EEPROM word {beyond[0]:#x}; the "
+                    f"image ends at word {len(img) // 2:#x}")
     try:
-        got = aio.run(main)
+        got = aio.run(main, stop_if=walked_off)
+    except aio.WallClock as ex:
+        res.case(case, nontrivial=True)
+        res.inconc(f"{ex} in an EEPROM case")
+        return
     except Exception as ex:
         res.case(case, nontrivial=True)
+        if beyond[0] > limit:
+            res.violation("reader-walks-past-the-end-marker", str(ex),
+                          case=case)
+            return
         res.violation("unexplained:raised " + type(ex).__name__,
                       f"decoding raised {ex!r}", case=case)
         return
@@ -300,6 +323,9 @@ def check_case(case, res, prior=None):
     res.count("eeprom_accesses", sum(1 for e in t.events
                                      if e[0] == "eeprom_read_cmd"))
     res.count("images_8byte" if case["eight"] else "images_4byte")
+    res.count("cases_that_read_more_than_64_words_past_their_image",
+              beyond[0] > max(len(img), len(image(prior)) if prior else 0)
+              // 2 + 64)
     problems = []
     if got["ident"] != case["ident"]:
         problems.append(f"identity {got['ident']} vs {case['ident']}")
